@@ -112,12 +112,35 @@ def coq_project():
             raise RuntimeError("coq_makefile failed:\n" + out)
 
 
+class CoqLock:
+    """Serialises everything that touches _CoqProject / Makefile.coq / .vo files, so that two
+    checks running at the same time in one /verif do not trample each other's build."""
+    depth = 0
+    fh = None
+
+    def __enter__(self):
+        import fcntl
+        if CoqLock.depth == 0:
+            os.makedirs(CACHE, exist_ok=True)
+            CoqLock.fh = open(os.path.join(CACHE, "coq.lock"), "w")
+            fcntl.flock(CoqLock.fh, fcntl.LOCK_EX)
+        CoqLock.depth += 1
+
+    def __exit__(self, *a):
+        import fcntl
+        CoqLock.depth -= 1
+        if CoqLock.depth == 0:
+            fcntl.flock(CoqLock.fh, fcntl.LOCK_UN)
+            CoqLock.fh.close()
+
+
 def coq_make(targets, timeout=2400):
     """make the given .vo targets (paths relative to ROOT). Returns (ok, log)."""
-    coq_project()
-    tg = " ".join(targets)
-    rc, out = sh("timeout %d make -f Makefile.coq -j%d %s" % (timeout, NCPU, tg), cwd=ROOT,
-                 timeout=timeout + 30)
+    with CoqLock():
+        coq_project()
+        tg = " ".join(targets)
+        rc, out = sh("timeout %d make -f Makefile.coq -j%d %s" % (timeout, NCPU, tg), cwd=ROOT,
+                     timeout=timeout + 30)
     return rc == 0, out
 
 
@@ -194,7 +217,8 @@ def grep_forbidden(files):
 
 def coq_deps_of(vfile):
     """Transitive closure of project files a .v file depends on (via coqdep)."""
-    coq_project()
+    with CoqLock():
+        coq_project()
     rc, out = sh(["coqdep"] + coq_qargs() + [os.path.relpath(f, ROOT) for f in coq_sources()], cwd=ROOT)
     deps = {}
     for ln in out.splitlines():
@@ -217,6 +241,11 @@ def coq_deps_of(vfile):
 
 
 def coq_check_property(prop, extra_targets=()):
+    with CoqLock():
+        return _coq_check_property(prop, extra_targets)
+
+
+def _coq_check_property(prop, extra_targets=()):
     """Build and audit the Coq side of one property.
 
     Returns a dict: ok, obligations, discharged, theorems, axioms, failures (list
@@ -277,6 +306,11 @@ def coq_check_property(prop, extra_targets=()):
 # -------------------------------------------------------------------- extraction
 
 def build_model(prop, timeout=900):
+    with CoqLock():
+        return _build_model(prop, timeout)
+
+
+def _build_model(prop, timeout=900):
     """Run props/<prop>/coq/Extract.v (ExtrOcamlBasic only) and link the result with
     props/<prop>/driver.ml.  Returns path of the executable; raises on failure."""
     pdir = os.path.join(ROOT, "props", prop)
